@@ -19,6 +19,7 @@ import (
 	"github.com/jdillenkofer/pithos/internal/storage/database"
 	partOutboxEntry "github.com/jdillenkofer/pithos/internal/storage/database/repository/partoutboxentry"
 	"github.com/jdillenkofer/pithos/internal/storage/metadatapart/partstore"
+	"github.com/jdillenkofer/pithos/internal/verifhook"
 	"github.com/oklog/ulid/v2"
 	"github.com/prometheus/client_golang/prometheus"
 )
@@ -195,6 +196,7 @@ func (obs *outboxPartStore) startPartOutboxHeartbeat(ctx context.Context, entry 
 			case <-ctx.Done():
 				return
 			case <-ticker.C:
+				verifhook.At("partoutbox.heartbeat", obs.claimOwner, entry)
 				now := time.Now().UTC()
 				var extended bool
 				err := database.WithTx(ctx, obs.db, &sql.TxOptions{ReadOnly: false}, func(ctx context.Context, tx database.Tx) error {
@@ -206,6 +208,7 @@ func (obs *outboxPartStore) startPartOutboxHeartbeat(ctx context.Context, entry 
 					slog.WarnContext(ctx, "Failed to commit part outbox heartbeat", "error", err)
 					continue
 				}
+				verifhook.At("partoutbox.heartbeat.done", obs.claimOwner, entry, extended)
 				if !extended {
 					slog.WarnContext(ctx, "Part outbox heartbeat lost claim", "entryId", entry.Id.String())
 				}
@@ -264,6 +267,7 @@ func (obs *outboxPartStore) maybeProcessOutboxEntries(ctx context.Context) {
 			waitForPartOutboxRetry(ctx)
 			return
 		}
+		verifhook.At("partoutbox.claim", obs.claimOwner, entry, claimed)
 		if entry == nil || !claimed {
 			break
 		}
@@ -279,8 +283,10 @@ func (obs *outboxPartStore) maybeProcessOutboxEntries(ctx context.Context) {
 			err = fmt.Errorf("invalid part outbox operation: %s", entry.Operation)
 		}
 		stopHeartbeat()
+		verifhook.At("partoutbox.replayed", obs.claimOwner, entry, err)
 		if err != nil {
 			_, _ = obs.releasePartOutboxEntry(ctx, entry)
+			verifhook.At("partoutbox.released", obs.claimOwner, entry)
 			obs.metrics.errorsCounter.Inc()
 			waitForPartOutboxRetry(ctx)
 			return
@@ -295,6 +301,7 @@ func (obs *outboxPartStore) maybeProcessOutboxEntries(ctx context.Context) {
 			waitForPartOutboxRetry(ctx)
 			return
 		}
+		verifhook.At("partoutbox.finalized", obs.claimOwner, entry, deleted)
 		if !deleted {
 			obs.metrics.errorsCounter.Inc()
 			slog.Warn("Part outbox finalize skipped because claim owner no longer matched", "entryId", entry.Id.String())
